@@ -79,7 +79,9 @@ def make_local_grid(cfg):
         return G.TrapezoidalGrid(a=a, b=b, boundary=cfg["boundary"])
     if name == "MixedGrid":
         # tensor grid of 1-D families chosen per dimension, each with its own boundary flag
-        kinds = {"Trapezoidal": G.TrapezoidalGrid1D, "Simpson": G.SimpsonGrid1D, "ClenshawCurtis": G.ClenshawCurtisGrid1D}
+        kinds = {"Trapezoidal": G.TrapezoidalGrid1D, "Simpson": G.SimpsonGrid1D, "ClenshawCurtis": G.ClenshawCurtisGrid1D,
+                 # trapezoidal rule without boundary points whose outermost hats are extrapolated linearly (exact for linear functions)
+                 "TrapezoidalMod": lambda a, b, boundary: G.TrapezoidalGrid1D(a=a, b=b, boundary=False, modified_basis=True)}
         return G.MixedGrid(a=a, b=b, grids=[kinds[k](a=a[d], b=b[d], boundary=bool(bd)) for d, (k, bd) in enumerate(cfg["mixed"])])
     if name == "LagrangeGrid2":
         return G.LagrangeGrid(a=a, b=b, boundary=True, p=2)
